@@ -197,6 +197,13 @@ func run(rc *runConfig) int {
 		if err := x.verify(); err != nil {
 			fmt.Printf("UNDECIDED property=%s %v\n", rc.prop, err)
 			undecided++
+			// what was generated before the contract error is still valid and is still reported
+			execs = append(execs, x)
+			for _, o := range x.obls {
+				if rc.prop == "" || hasProp(o.Props, rc.prop) {
+					obls = append(obls, o)
+				}
+			}
 			continue
 		}
 		execs = append(execs, x)
@@ -208,6 +215,12 @@ func run(rc *runConfig) int {
 		covers = append(covers, x.covers...)
 	}
 	obls = append(obls, prog.census(rc.prop)...)
+	for _, u := range prog.roleUnseen {
+		if rc.funcOnly == "" {
+			fmt.Printf("UNDECIDED property=%s %s\n", rc.prop, u)
+			undecided++
+		}
+	}
 	smtDir := filepath.Join(rc.outDir, "smt", rc.prop)
 	os.RemoveAll(smtDir)
 	thorough := rc.tier == "thorough"
